@@ -6,7 +6,7 @@ cd /repo || exit 2
 if ! git diff --quiet; then echo "/repo has uncommitted changes"; exit 2; fi
 git apply "$patch" || { echo "patch does not apply"; exit 2; }
 cd /verif
-VERIF_BUDGET_S=$budget VERIF_MIN_S=${VERIF_MIN_S:-15} ./check "$prop" quick 2>&1 | grep -v "^warning" | tail -8
+mkdir -p /tmp/verif-mutant-evidence; VERIF_EVIDENCE_DIR=/tmp/verif-mutant-evidence VERIF_BUDGET_S=$budget VERIF_MIN_S=${VERIF_MIN_S:-15} ./check "$prop" quick 2>&1 | grep -v "^warning" | tail -8
 rc=${PIPESTATUS[0]}
 cd /repo && git checkout -- . 
 echo "mutant $(basename $patch) on $prop: exit=$rc"
